@@ -97,7 +97,11 @@ def _ops(draw, blk, minlen=1, maxlen=14, with_reset=True):
 @st.composite
 def _block_case(draw):
     blk = draw(_block())
-    return {'t': 'block', 'block': blk, 'ops': draw(_ops(blk))}
+    ops = draw(_ops(blk))
+    if blk['shape'] == 'seq' and not blk.get('scalar') and draw(st.integers(0, 3)) == 0:
+        # the application keeps using the list it handed to the constructor (a block owns its cells)
+        ops.insert(draw(st.integers(0, len(ops))), ['caller-mutates-its-list'])
+    return {'t': 'block', 'block': blk, 'ops': ops}
 
 
 @st.composite
@@ -172,13 +176,16 @@ def sweeps(tier):
     return out
 
 
-def _make_block(b):
+def _make_block(b, keep=None):
     from pymodbus.datastore.store import ModbusSequentialDataBlock, ModbusSparseDataBlock
     if b['shape'] == 'default':
         return None
     if b['shape'] == 'seq':
         if b.get('scalar'):
             return ModbusSequentialDataBlock(b['start'], b['values'][0])
+        if keep is not None:
+            keep.extend(b['values'])
+            return ModbusSequentialDataBlock(b['start'], keep)
         return ModbusSequentialDataBlock(b['start'], list(b['values']) if len(b['values']) % 2 else tuple(b['values']))
     if b['shape'] == 'sparse-list':
         return ModbusSparseDataBlock(list(b['values']))
@@ -243,7 +250,8 @@ def _apply(block, model, default, op, discs, labels, written, tag=''):
 def _run_block(case):
     b = case['block']
     discs, labels = [], ['block:' + b['shape']]
-    block = _make_block(b)
+    mine = [] if any(op[0] == 'caller-mutates-its-list' for op in case['ops']) else None
+    block = _make_block(b, mine)
     model = _model(b)
     default = False if b['bits'] else 0
     written = set()
@@ -253,6 +261,14 @@ def _run_block(case):
         else:
             for op in case['ops']:
                 labels.append('op:' + op[0])
+                if op[0] == 'caller-mutates-its-list':
+                    for i_ in range(len(mine)):
+                        mine[i_] = (not mine[i_]) if b['bits'] else (mine[i_] ^ 0x5A5A)
+                    mine.append(True if b['bits'] else 0x1234)
+                    if _dump(block) != model:
+                        discs.append(Disc('state', 'the application changed the list it had passed to the constructor and the block changed with it: %r' % sorted(_dump(block).items())[:6]))
+                        break
+                    continue
                 if not _apply(block, model, default, op, discs, labels, written):
                     break
     except Exception as e:
